@@ -275,6 +275,11 @@ def run(ctx):
     s4_instantiation(ctx, r)
     s5_axioms(ctx, r, arms)
     c06.rust_half(ctx, r)
+    # (S3b) the substitution the rules apply is the textbook one on every constructor: besides capture (S3) this covers shadowing
+    # at the binder of the substituted variable and the leaves (the deferral arms admit several sound representations and are left to C05 / C11) - an instance of the Quantifier or
+    # Substitution rule computed with a different function is not an instance of the rule (shared with C05 / C11)
+    from . import c05
+    c05.subst_conformance(ctx, r, only_structural=True)
     ctx.floor('minting', 12)
     ctx.floor('guard', 10)
     ctx.floor('capture-guard', 4)
